@@ -49,7 +49,23 @@ def main():
     import signal
     signal.signal(signal.SIGALRM, on_alarm)
     signal.alarm(limit)
-    mod.run(ctx)
+    try:
+        mod.run(ctx)
+    except Exception:
+        # an internal error of the check (a driver that timed out, an unreadable answer, a bug of the plugin): the property is
+        # not shown to hold by this run, which the interface wants reported as a violation with the reason, not as a bare traceback
+        import json, traceback
+        tb = traceback.format_exc()
+        d = os.path.join(vlib.ROOT, "replays", pid)
+        os.makedirs(d, exist_ok=True)
+        path = os.path.join(d, "%s_check-internal-error.json" % a.tier)
+        json.dump({"property": pid, "seed": seed, "kind": "corr", "key": "check-internal-error",
+                   "what": "the check ended with an internal error before reaching a verdict",
+                   "replay": {"correspondence": "run of the check of %s" % pid, "traceback": tb[-4000:], "work_dir": ctx.work}}, open(path, "w"), indent=1)
+        sys.stderr.write(tb)
+        print("corr: the check ended with an internal error: %s" % tb.strip().split("\n")[-1][:300])
+        print("VIOLATION property=%s replay=%s no-failing-input-found" % (pid, path), flush=True)
+        sys.exit(1)
 
 
 if __name__ == "__main__":
